@@ -178,7 +178,7 @@ PROPS = {
     },
     "C07": {
         "units": [
-            {"pkg": "./c07", "run": "TestC07PassThrough|TestC07NoRoute", "shards": 6, "shards_thorough": 16, "timeout": 300},
+            {"pkg": "./c07", "run": "TestC07PassThrough|TestC07NoRoute|TestC07RefusedUpgradeIsRelayed", "shards": 6, "shards_thorough": 16, "timeout": 300},
             {"pkg": "./c07", "run": "TestC07ConcurrentExchanges", "race": True, "shards": 2, "shards_thorough": 6, "timeout": 300},
             {"pkg": "./mainpkg", "run": "^TestC07", "shards": 2, "shards_thorough": 4, "timeout": 300},
         ],
